@@ -11,6 +11,77 @@ import (
 	"github.com/oasisprotocol/curve25519-voi/internal/verif/ref/refgrp"
 )
 
+// spareS / spareP / spareX return a copy of in with spare capacity whose hidden tail holds a sentinel, and a function
+// reporting whether the slice elements and the tail (caller memory beyond len) are still intact.  (go.mod pins go1.17: no generics.)
+func spareS(in []*scalar.Scalar, sentinel *scalar.Scalar) ([]*scalar.Scalar, func() bool) {
+	buf := make([]*scalar.Scalar, len(in)+3)
+	copy(buf, in)
+	for i := len(in); i < len(buf); i++ {
+		buf[i] = sentinel
+	}
+	return buf[:len(in)], func() bool {
+		for i := len(in); i < len(buf); i++ {
+			if buf[i] != sentinel {
+				return false
+			}
+		}
+		for i := range in {
+			if buf[i] != in[i] {
+				return false
+			}
+		}
+		return true
+	}
+}
+
+func spareP(in []*curve.EdwardsPoint, sentinel *curve.EdwardsPoint) ([]*curve.EdwardsPoint, func() bool) {
+	buf := make([]*curve.EdwardsPoint, len(in)+3)
+	copy(buf, in)
+	for i := len(in); i < len(buf); i++ {
+		buf[i] = sentinel
+	}
+	return buf[:len(in)], func() bool {
+		for i := len(in); i < len(buf); i++ {
+			if buf[i] != sentinel {
+				return false
+			}
+		}
+		for i := range in {
+			if buf[i] != in[i] {
+				return false
+			}
+		}
+		return true
+	}
+}
+
+func spareX(in []*curve.ExpandedEdwardsPoint, sentinel *curve.ExpandedEdwardsPoint) ([]*curve.ExpandedEdwardsPoint, func() bool) {
+	buf := make([]*curve.ExpandedEdwardsPoint, len(in)+3)
+	copy(buf, in)
+	for i := len(in); i < len(buf); i++ {
+		buf[i] = sentinel
+	}
+	return buf[:len(in)], func() bool {
+		for i := len(in); i < len(buf); i++ {
+			if buf[i] != sentinel {
+				return false
+			}
+		}
+		for i := range in {
+			if buf[i] != in[i] {
+				return false
+			}
+		}
+		return true
+	}
+}
+
+var (
+	sentScalar = scalar.New()
+	sentPoint  = curve.NewEdwardsPoint()
+	sentExp    = new(curve.ExpandedEdwardsPoint)
+)
+
 func objs(scs []*scalar.Scalar, pts []*curve.EdwardsPoint, more ...interface{}) []interface{} {
 	var o []interface{}
 	for _, x := range scs {
@@ -69,9 +140,15 @@ func (s *space) msmRun(w *mc.W, cls string, n int, scs []*scalar.Scalar, pts []*
 			checkPt(w, "EdwardsPoint.MultiscalarMul", func() *curve.EdwardsPoint { return nr().MultiscalarMul(scs, lp) }, want, d("MultiscalarMul"), cas)
 		})
 		ev("MultiscalarMul")
+		sc2, okS := spareS(scs, sentScalar)
+		lp2, okP := spareP(lp, sentPoint)
 		unchanged(w, "EdwardsPoint.MultiscalarMulVartime", d("MultiscalarMulVartime"), cas, in, func() {
-			checkPt(w, "EdwardsPoint.MultiscalarMulVartime", func() *curve.EdwardsPoint { return nr().MultiscalarMulVartime(scs, lp) }, want, d("MultiscalarMulVartime"), cas)
+			checkPt(w, "EdwardsPoint.MultiscalarMulVartime", func() *curve.EdwardsPoint { return nr().MultiscalarMulVartime(sc2, lp2) }, want, d("MultiscalarMulVartime"), cas)
+			checkPt(w, "EdwardsPoint.MultiscalarMul", func() *curve.EdwardsPoint { return nr().MultiscalarMul(sc2, lp2) }, want, d("MultiscalarMul (slices with spare capacity)"), cas)
 		})
+		if !(okS() && okP()) {
+			w.Fail("EdwardsPoint.MultiscalarMul/caller-slice-modified", d("MultiscalarMul / MultiscalarMulVartime")()+": an argument slice (its elements or the spare capacity behind it) was written to", cas)
+		}
 		ev("MultiscalarMulVartime")
 		if n > 0 { // receiver is one of the points: first and last position for both routines
 			for _, k := range dedupInts([]int{0, n - 1}) {
@@ -104,9 +181,17 @@ func (s *space) msmRun(w *mc.W, cls string, n int, scs []*scalar.Scalar, pts []*
 			for _, x := range spn {
 				in = append(in, x)
 			}
+			// the four argument slices have spare capacity: the caller's memory behind them must survive
+			ss2, okSS := spareS(ss, sentScalar)
+			sp2, okSP := spareX(spn, sentExp)
+			ds2, okDS := spareS(ds, sentScalar)
+			dp2, okDP := spareP(dpn, sentPoint)
 			unchanged(w, "EdwardsPoint.ExpandedMultiscalarMulVartime", d(what), cas, in, func() {
-				checkPt(w, "EdwardsPoint.ExpandedMultiscalarMulVartime", func() *curve.EdwardsPoint { return nr().ExpandedMultiscalarMulVartime(ss, spn, ds, dpn) }, want, d(what), cas)
+				checkPt(w, "EdwardsPoint.ExpandedMultiscalarMulVartime", func() *curve.EdwardsPoint { return nr().ExpandedMultiscalarMulVartime(ss2, sp2, ds2, dp2) }, want, d(what), cas)
 			})
+			if !(okSS() && okSP() && okDS() && okDP()) {
+				w.Fail("EdwardsPoint.ExpandedMultiscalarMulVartime/caller-slice-modified", d(what)()+": an argument slice (its elements or the spare capacity behind it) was written to", cas)
+			}
 			ev("ExpandedMultiscalarMulVartime")
 			if lastDyn >= 0 { // receiver among the dynamic points
 				r := cp(dpn[lastDyn])
@@ -220,7 +305,7 @@ func (s *space) msmSpecial(c *mc.Ctx, evenPts []int) {
 	patterns := []string{"zero-scalars(shared object)", "zero-scalars(distinct objects)", "identity-points", "zero-scalars+identity-points",
 		"shared-scalar", "shared-point", "shared-scalar+shared-point", "first-two-terms-share-objects"}
 	ns := []int{1, 2, 3, 8}
-	nj, nk := c.Pick(6, 12), c.Pick(10, 30)
+	nj, nk := c.Pick(4, 12), c.Pick(6, 30)
 	prod := mc.Product{Radix: []int{2, len(ns), len(patterns), nj, nk}}
 	c.Par("msm-special", prod.Size(), func(w *mc.W, i int) {
 		var dg [5]int
